@@ -15,12 +15,12 @@ PID = "C15"
 ANCHORS = ["pyoma2.algorithms.base:BaseAlgorithm._pre_run", "pyoma2.algorithms.base:BaseAlgorithm._set_data", "pyoma2.algorithms.base:BaseAlgorithm._set_result",
            "pyoma2.setup.base:BaseSetup.add_algorithms", "pyoma2.setup.base:BaseSetup.run_by_name", "pyoma2.setup.base:BaseSetup.run_all", "pyoma2.setup.base:BaseSetup.mpe",
            "pyoma2.setup.multi:MultiSetup_PoSER._init_setups", "pyoma2.functions.gen:save_to_file", "pyoma2.functions.gen:load_from_file"]
-REQUIRED_MONITORS = ["pickle-round-trip(several files)", "step@history(algorithm replaced under its name)", "step@history(enumerated)", "step@history(sampled, six classes)", "step@history(PreGER)", "pickle-round-trip", "PoSER-constructor-outcome"]
+REQUIRED_MONITORS = ["step@history(pre-processing between two additions)", "pickle-round-trip(several files)", "step@history(algorithm replaced under its name)", "step@history(enumerated)", "step@history(sampled, six classes)", "step@history(PreGER)", "pickle-round-trip", "PoSER-constructor-outcome"]
 ALL_STATES = ["run without parameters rejected", "mpe before run rejected", "run of an algorithm never added rejected", "re-run after mpe clears extraction", "run repeated",
               "run_all with a parameterless algorithm", "algorithm re-added", "PoSER accepted", "PoSER rejected: <2 setups", "PoSER rejected: empty setup",
               "PoSER rejected: types differ", "PoSER rejected: order differs", "PoSER rejected: subclass instead of class", "PoSER rejected: names length",
               "PoSER rejected: not run", "PoSER rejected: run but no mpe"]
-REQUIRED_STATES = ["another algorithm object added under an existing name", "several setups saved under similar file names"] + [s for s in ALL_STATES]
+REQUIRED_STATES = ["PoSER: ragged lists whose concatenation repeats the first list", "algorithm keeps the records bound when it was added", "another algorithm object added under an existing name", "several setups saved under similar file names"] + [s for s in ALL_STATES]
 RULE = ("histories over {add(a), run_by_name(a), mpe(a), run_all} for pools of three algorithm instances (two pools covering FDD, EFDD, FSDD, SSIcov, SSIdat, "
         "pLSCF; one pool member may lack run parameters): ALL sequences up to length 3 (quick) / 4 (thorough), sampled length-5 histories over all six "
         "classes and over the PreGER variants; after every call the outcome (exception or not), the digest of every algorithm's result, and checksums of "
@@ -71,6 +71,7 @@ def _cases(tier, seed):
     out += [{"cls": "poser", "part": p, "k": p} for p in range(16)]
     out += [{"cls": "replaced", "ms": bool(m_), "k": 7000 + 2 * k_ + m_} for k_ in range(6 if tier == "quick" else 40) for m_ in (0, 1)]
     out += [{"cls": "file_names", "k": 7500 + k_} for k_ in range(2 if tier == "quick" else 10)]
+    out += [{"cls": "bound_when_added", "ms": bool(k_ % 2), "k": 7600 + k_} for k_ in range(12 if tier == "quick" else 72)]
     return out
 
 
@@ -366,6 +367,51 @@ def run_replaced(ctx, case):
         ctx.sample({"entry": h.tag, "pool": pool, "history": h.hist})
 
 
+def run_bound_when_added(ctx, case):
+    """add A - pre-process the setup - (add B) - run A: A's result depends on its parameters and on the data bound when IT was added, whatever
+    is added to the setup later."""
+    rng = gen.rng_of(case)
+    ms = case["ms"]
+    names = ["FDD_MS", "SSIcov_MS", "pLSCF_MS"] if ms else ["FDD", "EFDD", "SSIcov", "SSIdat", "pLSCF"]
+    pool = [str(x) for x in rng.permutation(names)[:2]]
+    h = History(ctx, pool, ms, "step@history(pre-processing between two additions)")
+    h.step("add", 0)
+    op = ["decimate", "filter", "detrend"][case["k"] // 2 % 3]
+    if op == "decimate":
+        h.setup.decimate_data(q=2)
+    elif op == "filter":
+        h.setup.filter_data(Wn=20.0, order=4, btype="lowpass")
+    else:
+        h.setup.detrend_data(type="linear")
+    h.hist.append(f"{op}_data")
+    # from here on the setup holds other records than the ones bound to the first algorithm: the history's model of 'shared data unchanged'
+    # refers to the records bound at addition, which the algorithm object still holds
+    h.data_sha = h.sha_data(h.algs[0].data)
+    later = case["k"] // 6 % 2 == 0
+    if later:
+        try:
+            h.setup.add_algorithms(h.algs[1])
+            h.hist.append(f"add({pool[1]})")
+        except Exception as e:  # noqa: BLE001
+            h.fail(f"unexpected_exception:add:{type(e).__name__}", f"{type(e).__name__}: {e}")
+            return
+    ctx.ev(h.tag)
+    try:
+        h.setup.run_by_name("a0")
+    except Exception as e:  # noqa: BLE001
+        h.fail(f"unexpected_exception:run:{type(e).__name__}", f"{type(e).__name__}: {e}")
+        return
+    h.hist.append(f"run({pool[0]})")
+    d_run, _, r_run, _ = reference(pool[0], ms)
+    a = h.algs[0]
+    ok = a.result is not None and (probes.digest(a.result) == d_run or tolerant_equal(a.result, r_run))
+    ctx.check(ok, "isolation:result_not_that_of_the_data_bound_at_addition",
+              lambda: f"{h.tag} pool={pool} history={h.hist}: the result of {pool[0]} is not the one it gives on the records it was added with "
+                      f"(algorithm holds fs={getattr(a, 'fs', None)}, {np.shape(a.data) if not isinstance(a.data, list) else len(a.data)} records)")
+    ctx.state("algorithm keeps the records bound when it was added")
+    ctx.nontrivial(("bound", ms, op, later, tuple(pool)))
+
+
 def run_file_names(ctx, case):
     """several setups saved side by side: every file name is its own file (names a user gives: setup_k / setup_l, run_p / run_k, deck.1 / deck.2)."""
     from pyoma2.functions import gen as G_
@@ -469,6 +515,12 @@ def run_poser(ctx, case):
     pick = rng.permutation(len(four))[: (60 if ctx.tier == "quick" else 600)]
     configs += [[TEMPLATES[i] for i in four[j]] for j in pick]
     configs = configs[case["part"]::16]
+    if case["part"] == 0:
+        # setups with DIFFERENT numbers of algorithms whose lists, written one after the other, read like the first list repeated once per
+        # setup: the comparison is per setup, not over the concatenation
+        configs += [[["A", "A"], ["A"], ["A", "A", "A"]], [["A", "B"], ["A"], ["B", "A", "B"]], [["A", "B"], ["A", "B", "A"], ["B"], ["A", "B"]],
+                    [["A", "A"], ["A", "A", "A"], ["A"]], [["A", "B", "C"], ["A", "B"], ["C", "A", "B", "C"]], [["A"], ["A", "A"], ["A"], []][:3] + [["A"]]]
+        ctx.state("PoSER: ragged lists whose concatenation repeats the first list")
     nconf = 0
     for lists in configs:
         nalg = len(lists[0]) if lists else 0
@@ -521,5 +573,7 @@ def run_case(ctx, case):
         run_replaced(ctx, case)
     elif c == "file_names":
         run_file_names(ctx, case)
+    elif c == "bound_when_added":
+        run_bound_when_added(ctx, case)
     else:
         run_poser(ctx, case)
